@@ -1135,17 +1135,31 @@ class DomainMapping(CanBehaveLikeAVariable[T], ABC):
         if self._id_ in sources:
             yield sources
             return
+        used_as_condition = self._is_used_as_condition_
         child_val = self._child_._evaluate__(sources, yield_when_false=self._yield_when_false_)
         for child_v in child_val:
             for v in self._apply_mapping_(child_v[self._child_._id_]):
                 values = copy(child_v)
-                if (not self._invert_ and v.value) or (self._invert_ and not v.value):
+                if not used_as_condition:
+                    # The value itself is what is needed (operand, selected output, argument), it is not a truth value.
+                    self._is_false_ = False
+                elif (not self._invert_ and v.value) or (self._invert_ and not v.value):
                     self._is_false_ = False
                 else:
                     self._is_false_ = True
                 if self._yield_when_false_ or not self._is_false_:
                     values[self._id_] = v
                     yield values
+
+    @property
+    def _is_used_as_condition_(self) -> bool:
+        """
+        Whether the mapped value stands in condition position (is interpreted as a boolean), or is used as a value.
+        """
+        parent = self._parent_
+        if isinstance(parent, ForAll):
+            return parent.condition is self
+        return isinstance(parent, (LogicalOperator, QueryObjectDescriptor, ResultQuantifier))
 
     @abstractmethod
     def _apply_mapping_(self, value: HashedValue) -> Iterable[HashedValue]:
